@@ -73,6 +73,9 @@ def other_operations(chk, th):
         out["single group, own herald in!=out"] = sg
         sg2 = lw.Circuit(4); sg2.add(qubit.CZ_Heralded(), 0)
         out["single heralded gate"] = sg2
+        out["gate object CNOT"] = qubit.CNOT()                  # library gate objects kept by the caller and placed several times
+        out["gate object CNOT_Heralded"] = qubit.CNOT_Heralded()
+        out["gate object SWAP"] = qubit.SWAP((0, 1), (2, 3))
         return out
 
     def guarded(what, objs, states, fn):
